@@ -58,8 +58,8 @@ def _prep(sc, r):
     objs_of = {}
     for e in r['events']:
         k = e['e']
-        if k in ('Config', 'Tick', 'End', 'Fault', 'Enter', 'RelCall'):
-            continue
+        if k in ('Config', 'Tick', 'End', 'Fault', 'Enter', 'RelCall', 'Stall', 'FinalState', 'FinalProbe'):
+            continue      # (a stall is a scheduling decision; the prober acts after the last observable point)
         if k not in ('AcqCall', 'AcqRet', 'Exit', 'RelRet') or 'st' not in e:
             return None
         d = {'e': k, 'st': e['st']}
